@@ -109,7 +109,8 @@ theorem pathAt_spans {ts : List TT} {o : Oracle} {c c' : Cur} {p : UPath} (hc : 
   · cases h
 
 theorem closureAt_spans {ts : List TT} {o : Oracle} {c c' : Cur} {e : UExpr} (hc : CurOk ts c) (ho : oracleSpansOk ts o = true)
-    (he : ClosureAt o c e c') : ∃ n, 1 ≤ n ∧ n ≤ c.rest.length ∧ c' = c.advance n ∧ covers e.sp (c.rest.take n) = true := by
+    (he : ClosureAt o c e c') : ∃ n, 1 ≤ n ∧ n ≤ c.rest.length ∧ c' = c.advance n ∧ covers e.sp (c.rest.take n) = true ∧
+      firstTokOk e (c.rest.take n) = true := by
   obtain ⟨n, isp, hl, hc'⟩ := he
   have hmem := mem_of_lookup hl
   unfold oracleSpansOk at ho
@@ -120,7 +121,8 @@ theorem closureAt_spans {ts : List TT} {o : Oracle} {c c' : Cur} {e : UExpr} (hc
   · rename_i run hrun
     obtain ⟨h1, h2, h3⟩ := run_of_lookup hc n ⟨run, hrun⟩
     rw [h3] at hrun; cases hrun
-    exact ⟨n, h1, h2, hc', h⟩
+    rw [Bool.and_eq_true] at h
+    exact ⟨n, h1, h2, hc', h.1, h.2⟩
   · cases h
 
 /-- **Where a pattern's recorded location must lie**, relative to the cursor `c` at which the
@@ -232,7 +234,7 @@ theorem anchored_of_derivation {ts : List TT} {o : Oracle} {c c' : Cur} {p : Pat
     Anchored c p c' := by
   cases hg with
   | closure _ id e _ _ hcl hcls =>
-    obtain ⟨n, h1, h2, h3, h4⟩ := closureAt_spans hc ho hcl
+    obtain ⟨n, h1, h2, h3, h4, _⟩ := closureAt_spans hc ho hcl
     exact ⟨n, h1, h2, h3, h4⟩
   | wild => trivial
   | cmp _ op sp c1 e _ id hop he =>
@@ -248,7 +250,7 @@ theorem anchored_of_derivation {ts : List TT} {o : Oracle} {c c' : Cur} {p : Pat
       · rw [h3, hc1, advance_advance]
       · unfold exprSpansOk at h4
         simp only [Bool.and_eq_true] at h4
-        have h5 := h4.1
+        have h5 := h4.1.1
         rw [hc1] at h5
         exact covers_prefix hj hjl h1 hlen hhead h5
     cases hop with
@@ -274,7 +276,7 @@ theorem anchored_of_derivation {ts : List TT} {o : Oracle} {c c' : Cur} {p : Pat
     · rw [g3, hc2', advance_advance]
     · unfold exprSpansOk at g4
       simp only [Bool.and_eq_true] at g4
-      have := g4.1
+      have := g4.1.1
       rw [hc2'] at this
       simpa [Pat.location, hsp, Cur.advance] using this
   | like _ s1 c1 s2 c2 e _ id h1 h2 he hv =>
@@ -288,7 +290,7 @@ theorem anchored_of_derivation {ts : List TT} {o : Oracle} {c c' : Cur} {p : Pat
     · rw [g3, hc2', advance_advance]
     · unfold exprSpansOk at g4
       simp only [Bool.and_eq_true] at g4
-      have := g4.1
+      have := g4.1.1
       rw [hc2'] at this
       simpa [Pat.location, Cur.advance] using this
   | set _ hs c1 so sc ic _ elems rest ie id hp hgr _ _ =>
@@ -357,7 +359,7 @@ theorem anchored_of_derivation {ts : List TT} {o : Oracle} {c c' : Cur} {p : Pat
     obtain ⟨n, g1, g2, g3, g4⟩ := exprAt_spans hc ho he
     unfold exprSpansOk at g4
     simp only [Bool.and_eq_true] at g4
-    exact ⟨n, g1, g2, g3, g4.1⟩
+    exact ⟨n, g1, g2, g3, g4.1.1⟩
 
 /-! ## Every sub-pattern has a derivation of its own, at a cursor inside the token tree -/
 
@@ -637,5 +639,149 @@ theorem C04_every_node_anchored (o : Oracle) (ts : List TT) (fuel prev : Nat) (v
   intro q hq
   obtain ⟨cq, cq', hcq, hg⟩ := (sub_pat h3 hc2).2 q hq
   exact ⟨cq, cq', hcq, hg, anchored_of_derivation hts ho hcq hg⟩
+
+/-! ## Without `Span::join` (a real compiler session on stable)
+
+`Pat.noJoin` is the pattern as the macro sees it under rustc: a multi-token expression reports
+the span of its first token, a set pattern the span of `#`.  What T3 compares the reported
+positions with is `p.noJoin`; here its locations are anchored on the same token runs. -/
+
+def AnchoredNJ (c : Cur) (p : Pat) : Prop :=
+  match p with
+  | .simple .. | .closure .. =>
+    -- the first token of the pattern
+    ∃ t rest, c.rest = t :: rest ∧ p.noJoin.location = t.span
+  | .like .. =>
+    -- the first token of the expression after `=~`
+    ∃ a b t rest, c.rest = a :: b :: t :: rest ∧ p.noJoin.location = t.span
+  | .cmp _ _ sp _ =>
+    -- from the operator to the end of the operand's first token
+    ∃ a k t, c.rest.head? = some a ∧ sp.sameStart a.span = true ∧ (k = 1 ∨ k = 2) ∧ c.rest[k]? = some t ∧
+      p.noJoin.location = ⟨sp.ls, sp.cs, t.span.le, t.span.ce⟩
+  | .set .. =>
+    -- the `#`
+    ∃ j hs rest, c.rest = .punct '#' j hs :: rest ∧ p.noJoin.location = hs
+  | .range .. => True           -- operands keep their own spans; validated on compiled programs (T3)
+  | .struct .. | .enum .. | .tuple .. | .slice .. | .map .. | .string .. | .regex .. | .wild .. =>
+    -- no `join` involved: as in `Anchored`
+    p.noJoin.location = p.location
+
+theorem firstTok_location {e : UExpr} {l : List TT} {n : Nat} (hn : 1 ≤ n) (h : firstTokOk e (l.take n) = true) :
+    ∃ t rest, l = t :: rest ∧ e.noJoin.sp = t.span := by
+  unfold firstTokOk at h
+  cases l with
+  | nil => simp at h
+  | cons t rest =>
+    cases ht : e.toks with
+    | nil => simp [ht] at h
+    | cons t0 ts =>
+      have hh : ((t :: rest).take n).head? = some t := by
+        cases n with
+        | zero => omega
+        | succ m => simp
+      simp only [ht, hh, List.head?_cons, beq_iff_eq] at h
+      exact ⟨t, rest, rfl, by simp [UExpr.noJoin, ht, h]⟩
+
+theorem anchoredNJ_of_derivation {ts : List TT} {o : Oracle} {c c' : Cur} {p : Pat}
+    (hts : tokensWf ts = true) (ho : oracleSpansOk ts o = true) (hc : CurOk ts c) (hg : GPat o c p c') :
+    AnchoredNJ c p := by
+  cases hg with
+  | closure _ id e _ _ hcl hcls =>
+    obtain ⟨n, h1, h2, h3, _, h5⟩ := closureAt_spans hc ho hcl
+    obtain ⟨t, rest, hr, hsp⟩ := firstTok_location h1 h5
+    exact ⟨t, rest, hr, by simp [Pat.noJoin, Pat.location, hsp]⟩
+  | wild => rfl
+  | cmp _ op sp c1 e _ id hop he =>
+    have key : ∀ j, (j = 1 ∨ j = 2) → j ≤ c.rest.length → c1 = c.advance j →
+        (∃ a, c.rest.head? = some a ∧ sp.sameStart a.span = true) → AnchoredNJ c (.cmp id op sp e) := by
+      intro j hj hjl hc1 ⟨a, ha, hsa⟩
+      have hc1ok : CurOk ts c1 := hc1 ▸ curOk_advance hc j
+      obtain ⟨n, h1, h2, h3, h4⟩ := exprAt_spans hc1ok ho he
+      unfold exprSpansOk at h4
+      simp only [Bool.and_eq_true] at h4
+      obtain ⟨t, rest, hr, hsp⟩ := firstTok_location h1 h4.1.2
+      refine ⟨a, j, t, ha, hsa, hj, ?_, ?_⟩
+      · rw [hc1] at hr
+        simp only [Cur.advance] at hr
+        have : c.rest[j]? = (c.rest.drop j)[0]? := by simp
+        rw [this, hr]; rfl
+      · simp [Pat.noJoin, Pat.location, hsp]
+    cases hop with
+    | lt _ _ hp | gt _ _ hp =>
+      obtain ⟨j, rest, hr, hc1⟩ := hp
+      exact key 1 (Or.inl rfl) (by rw [hr]; simp) hc1 ⟨_, by rw [hr]; rfl, by simp [TT.span, Sp.sameStart]⟩
+    | le _ _ hp | ge _ _ hp | eq _ _ hp | ne _ _ hp =>
+      obtain ⟨s1, j, s2, rest, hr, hsp, hc1⟩ := hp
+      exact key 2 (Or.inr rfl) (by rw [hr]; simp) hc1 ⟨_, by rw [hr]; rfl, by rw [hsp]; simp [TT.span, Sp.sameStart]⟩
+  | regex => rfl
+  | like _ s1 c1 s2 c2 e _ id h1 h2 he hv =>
+    obtain ⟨j1, r1, hr1, hc1⟩ := h1
+    obtain ⟨j2, r2, hr2, hc2⟩ := h2
+    have hc2' : c2 = c.advance 2 := by rw [hc2, hc1, advance_advance]
+    have hc2ok : CurOk ts c2 := hc2' ▸ curOk_advance hc 2
+    obtain ⟨n, g1, g2, g3, g4⟩ := exprAt_spans hc2ok ho he
+    unfold exprSpansOk at g4
+    simp only [Bool.and_eq_true] at g4
+    obtain ⟨t, rest, hr, hsp⟩ := firstTok_location g1 g4.1.2
+    have hr2' : c1.rest = r1 := by rw [hc1]; simp [Cur.advance, hr1]
+    rw [hr2'] at hr2
+    have hr3 : c2.rest = r2 := by rw [hc2]; simp [Cur.advance, hr2', hr2]
+    rw [hr3] at hr
+    refine ⟨.punct '=' j1 s1, .punct '~' j2 s2, t, rest, ?_, by simp [Pat.noJoin, Pat.location, hsp]⟩
+    rw [hr1, hr2, hr]
+  | set _ hs c1 so sc ic _ elems rest ie id hp hgr _ _ =>
+    obtain ⟨j, r1, hr1, hc1⟩ := hp
+    have hwf := wf_at_cursor hts hc (.punct '#' j hs) (by rw [hr1]; simp)
+    unfold TT.wf at hwf
+    simp only [Bool.and_eq_true, beq_iff_eq] at hwf
+    refine ⟨j, hs, r1, hr1, ?_⟩
+    simp only [Pat.noJoin, Pat.location]
+    cases hs with
+    | mk a b c' d =>
+      simp only at hwf
+      simp [hwf.1, hwf.2]
+  | map => rfl
+  | slice => rfl
+  | tuple => rfl
+  | struct => rfl
+  | wildStruct => rfl
+  | unit => rfl
+  | variant => rfl
+  | range => trivial
+  | string => rfl
+  | simple _ e _ id _ _ he _ _ =>
+    obtain ⟨n, g1, g2, g3, g4⟩ := exprAt_spans hc ho he
+    unfold exprSpansOk at g4
+    simp only [Bool.and_eq_true] at g4
+    obtain ⟨t, rest, hr, hsp⟩ := firstTok_location g1 g4.1.2
+    exact ⟨t, rest, hr, by simp [Pat.noJoin, Pat.location, hsp]⟩
+
+/-- **C04, anchor selection under rustc**: for every accepted invocation, every sub-pattern's
+location *as recorded without `Span::join`* sits on the first token(s) of the sub-pattern's own
+run (`AnchoredNJ`), or is the location `C04_every_node_anchored` speaks about. -/
+theorem C04_every_node_anchored_noJoin (o : Oracle) (ts : List TT) (fuel prev : Nat) (v : UExpr) (p : Pat) (n : Nat)
+    (hts : tokensWf ts = true) (ho : oracleSpansOk ts o = true)
+    (h : parseAssert o ts fuel prev = .accept v p n) :
+    ∀ q ∈ p.nodes, ∃ cq cq', CurOk ts cq ∧ GPat o cq q cq' ∧ AnchoredNJ cq q := by
+  intro q hq
+  obtain ⟨cq, cq', hcq, hg, _⟩ := C04_every_node_anchored o ts fuel prev v p n hts ho h q hq
+  exact ⟨cq, cq', hcq, hg, anchoredNJ_of_derivation hts ho hcq hg⟩
+
+mutual
+/-- The sub-patterns of the join-free pattern are the join-free sub-patterns. -/
+theorem nodes_noJoin : ∀ p : Pat, p.noJoin.nodes = p.nodes.map Pat.noJoin
+  | .struct id path items rest => by simp [Pat.noJoin, Pat.nodes, items_nodes_noJoin items]
+  | .enum id path items => by simp [Pat.noJoin, Pat.nodes, items_nodes_noJoin items]
+  | .tuple id sp items => by simp [Pat.noJoin, Pat.nodes, items_nodes_noJoin items]
+  | .slice id sp items => by simp [Pat.noJoin, Pat.nodes, items_nodes_noJoin items]
+  | .set id sp items rest => by simp [Pat.noJoin, Pat.nodes, items_nodes_noJoin items]
+  | .map id sp items rest => by simp [Pat.noJoin, Pat.nodes, items_nodes_noJoin items]
+  | .simple .. | .string .. | .cmp .. | .range .. | .regex .. | .like .. | .wild .. | .closure .. => by
+    simp [Pat.noJoin, Pat.nodes]
+theorem items_nodes_noJoin : ∀ items : Items, items.noJoin.nodes = items.nodes.map Pat.noJoin
+  | .nil => rfl
+  | .cons o k p tl => by
+    simp [Items.noJoin, Items.nodes, nodes_noJoin p, items_nodes_noJoin tl]
+end
 
 end AsModel
